@@ -135,6 +135,41 @@ fn cols_reason(wb: &Workbook) -> &'static str {
     "none"
 }
 
+/// failure class of a not-well-formed state reached by `op`
+fn classify(v: &str, op: &Op, ok: bool, had_cse: bool, wb: &Workbook) -> String {
+    let fam = family(op);
+    match (v, fam) {
+        // F47: insert_columns pushes a descriptor past the last column (F45, the inverted
+        // descriptor of delete_columns, is fixed: any other cols failure is a violation)
+        ("notwf:cols", _) if cols_reason(wb) == "off-grid" && kind(op) == "insert_columns" => "notwf:cols(off-grid) after insert_columns".to_string(),
+        ("notwf:cols", _) => format!("notwf:cols({}) after {}{}", cols_reason(wb), if ok { "" } else { "failed " }, kind(op)),
+        // delete_sheet (also through undo of new_sheet / redo) keeps the defined names scoped to the sheet
+        ("notwf:dnames", "sheets" | "undo" | "redo") => "notwf:dnames after sheets".to_string(),
+        // property C31's findings F40-F42 (CSE arrays) and F43/F44 (undo)
+        ("notwf:spills", _) if had_cse => "notwf:spills (history with CSE arrays)".to_string(),
+        ("notwf:spills", "undo") => "notwf:spills after undo".to_string(),
+        _ => format!("{v} after {}{}", if ok { "" } else { "failed " }, fam),
+    }
+}
+
+/// runs a fixed operation sequence on an empty workbook; the verdict is taken after EVERY step
+fn run_fixed(ops: &[Op], cs: &mut Cases, or: &mut Oracle, n: &mut u64) {
+    let mut m = ironcalc_base::UserModel::new_empty("w", "en", "UTC", "en").unwrap();
+    for (i, op) in ops.iter().enumerate() {
+        let r = catch_unwind(AssertUnwindSafe(|| apply_op(&mut m, op)));
+        let ok = match r { Err(_) => { or.fail(&format!("panic:{}", family(op)), json!({"history": ops_json(&ops[..=i])}), format!("{} panicked", kind(op))); return; } Ok(x) => x.is_ok() };
+        let wb = &m.get_model().workbook;
+        let v = verdict(wb);
+        *n += 1;
+        or.checked += 1;
+        if i + 1 == ops.len() || v != "wf" { cs.case(&wb_wire(wb), &v); }
+        if v != "wf" {
+            or.fail(&classify(&v, op, ok, false, wb), json!({"history": ops_json(&ops[..=i])}), format!("{v} after {:?}", op));
+            return;
+        }
+    }
+}
+
 fn family(op: &Op) -> &'static str {
     match kind(op) {
         "insert_rows" | "insert_columns" | "delete_rows" | "delete_columns" | "move_rows" | "move_columns" => "structural",
@@ -174,6 +209,8 @@ fn scenario(ops: &[Op], show: bool) -> String {
     }
     verdict(&m.get_model().workbook)
 }
+
+fn next_len(seqs: &[Vec<usize>]) -> i32 { seqs.first().map(|s| s.len() as i32).unwrap_or(0) }
 
 fn main() {
     let a = Args::parse();
@@ -238,6 +275,44 @@ fn main() {
             }
         }
     }
+    // ---- exhaustive small scenarios: row / column descriptors under structural edits, sheet ids ------
+    let mut fixed = 0u64;
+    {
+        // every set of row descriptors on rows 1..=4 x every structural row operation near them, then undo and redo
+        let nr = if a.thorough { 5 } else { 4 };
+        for mask in 0u32..(1 << nr) {
+            let mut pre: Vec<Op> = vec![];
+            for r in 0..nr { if mask & (1 << r) != 0 { pre.push(Op::RowsHeight { sheet: 0, a: r + 1, b: r + 1, h: 30.0 + r as f64 }); } }
+            let mut pre_c: Vec<Op> = vec![];
+            for c in 0..nr { if mask & (1 << c) != 0 { pre_c.push(Op::ColsWidth { sheet: 0, a: c + 1, b: c + 1, w: 50.0 + c as f64 }); } }
+            for at in 1..=nr {
+                let mut edits: Vec<(Op, Op)> = vec![];
+                for delta in -3..=3 { if delta != 0 {
+                    edits.push((Op::MoveRows { sheet: 0, at, n: 1, delta }, Op::MoveCols { sheet: 0, at, n: 1, delta }));
+                } }
+                for n in 1..=2 {
+                    edits.push((Op::InsertRows { sheet: 0, at, n }, Op::InsertCols { sheet: 0, at, n }));
+                    edits.push((Op::DeleteRows { sheet: 0, at, n }, Op::DeleteCols { sheet: 0, at, n }));
+                }
+                for (er, ec) in edits {
+                    let mut ops = pre.clone(); ops.extend([er, Op::Undo, Op::Redo]);
+                    run_fixed(&ops, &mut cs, &mut or, &mut fixed);
+                    let mut ops = pre_c.clone(); ops.extend([ec, Op::Undo, Op::Redo]);
+                    run_fixed(&ops, &mut cs, &mut or, &mut fixed);
+                }
+            }
+        }
+        // every sequence of sheet operations up to length 4 (thorough 5)
+        let alphabet: Vec<Op> = vec![Op::NewSheet, Op::MoveSheet(1, 0), Op::MoveSheet(0, 1), Op::DeleteSheet(0), Op::DeleteSheet(1), Op::DuplicateSheet(0), Op::Undo, Op::RenameSheet(0, "sheet2".into())];
+        let maxlen = if a.thorough { 5 } else { 4 };
+        let mut seqs: Vec<Vec<usize>> = vec![vec![]];
+        for _ in 0..maxlen {
+            let mut next = vec![];
+            for sq in &seqs { if sq.len() as i32 == next_len(&seqs) { for k in 0..alphabet.len() { let mut t = sq.clone(); t.push(k); next.push(t); } } }
+            for t in &next { let ops: Vec<Op> = t.iter().map(|k| alphabet[*k].clone()).collect(); if t.len() == maxlen { run_fixed(&ops, &mut cs, &mut or, &mut fixed); } }
+            seqs = next;
+        }
+    }
     for (class, what, ops) in witnesses() {
         or.checked += 1;
         let v = scenario(&ops, false);
@@ -270,19 +345,7 @@ fn main() {
             if ncells <= 3000 { cs.case(&wb_wire(wb), &v); }
             or.checked += 1;
             if v != "wf" {
-                let fam = family(&op);
-                let class = match (v.as_str(), fam) {
-                    // F47: insert_columns pushes a descriptor past the last column (F45, the inverted
-                    // descriptor of delete_columns, is fixed: any other cols failure is a violation)
-                    ("notwf:cols", _) if cols_reason(wb) == "off-grid" && kind(&op) == "insert_columns" => "notwf:cols(off-grid) after insert_columns".to_string(),
-                    ("notwf:cols", _) => format!("notwf:cols({}) after {}{}", cols_reason(wb), if ok { "" } else { "failed " }, kind(&op)),
-                    // delete_sheet (also through undo of new_sheet / redo) keeps the defined names scoped to the sheet
-                    ("notwf:dnames", "sheets" | "undo" | "redo") => "notwf:dnames after sheets".to_string(),
-                    // property C31's findings F40-F42 (CSE arrays) and F43/F44 (undo)
-                    ("notwf:spills", _) if had_cse => "notwf:spills (history with CSE arrays)".to_string(),
-                    ("notwf:spills", "undo") => "notwf:spills after undo".to_string(),
-                    _ => format!("{v} after {}{}", if ok { "" } else { "failed " }, fam),
-                };
+                let class = classify(&v, &op, ok, had_cse, wb);
                 or.fail(&class, json!({"history": ops_json(&ops_done)}), format!("{v} after {:?}", op));
                 break; // the broken structure would echo through the rest of the history
             }
@@ -321,7 +384,7 @@ fn main() {
     }
     cs.finish(json!({
         "oracle_failures": or.failures, "oracle_checked": or.checked, "oracle_failures_per_class": or.per_class,
-        "distribution": {"histories": nh, "steps": steps, "failed_calls": failed_calls, "op_kinds": kinds, "xlsx_files": total_files, "xlsx_loaded": loaded, "xlsx_skipped": skipped, "descriptor_surgery_cases": surgery},
+        "distribution": {"histories": nh, "steps": steps, "failed_calls": failed_calls, "op_kinds": kinds, "xlsx_files": total_files, "xlsx_loaded": loaded, "xlsx_skipped": skipped, "descriptor_surgery_cases": surgery, "fixed_scenario_steps": fixed},
         "samples": samples, "distinct_nontrivial": steps + 2 * loaded,
     }));
 }
